@@ -118,6 +118,11 @@ def c02(tier, seed):
             L.do('!post-subdiv c0 %s %s' % (t, r.split()[1] if r.startswith('ok ') else 'u999'))
             L.do('obs c0')
             yield L.case()
+        # delete a whole order through the library's own listing
+        for k in range(0, max(len(x) for x in fam) + 1) if fam else []:
+            if thin and rng.random() < 0.5:
+                continue
+            yield dict(lines=base + ['!snap c0', 'delsorder c0 %d' % k, '!post-delsorder c0 %d' % k, 'obs c0', '!noalias c0'], pool=pool, tag='C02 delete order %d' % k)
         # add by basis: every missing vertex set over the points and one or two new points
         uni = pts + ['u50', 'u51']
         cand = [list(q) for r in range(1, min(len(uni), 4) + 1) for q in itertools.combinations(uni, r)
@@ -229,6 +234,8 @@ def c04(tier, seed):
         for r in range(1, min(len(pts), 3) + 1):
             for q in itertools.combinations(pts, r):
                 L.do('q c0 swb ' + Lst(q))
+                if r <= 2:
+                    L.do('q c0 swb ' + Lst(list(q) + [q[0]]))      # a repeated point: no such simplex
         for a, b in itertools.combinations(names, 2):
             if len(names) <= 8 or rng.random() < 0.2:
                 L.do('q c0 disjoint ' + Lst([a, b]))
@@ -326,6 +333,7 @@ def bad_requests(L, rng):
         out.append(('restrict to a non-point', 'restrict c0 ' + Lst(pts[:1] + [hi[0]])))
     if names:
         out.append(('copy into overlapping', 'copyinto c0 c9'))
+        out.append(('copy into overlapping (shared name of another order)', 'copyinto c0 c8'))
     return out
 
 
@@ -343,6 +351,8 @@ def c05(tier, seed):
         # the overlap target for copy(c): shares one name with c0
         names = L0.toks('c0')
         c9 = ['new c9', 'add c9 u90 [] -'] + (['add c9 %s [] -' % names[0]] if names else [])
+        # c8 shares only the name of c0's last (highest-order) simplex, as a point
+        c9 += ['new c8', 'add c8 u91 [] -'] + (['add c8 %s [] -' % names[-1]] if names else [])
         for kind, line in bad_requests(L0, rng):
             L = Live(pool, 'C05 %s: %s' % (kind, line))
             L.many(base + c9)
@@ -350,11 +360,11 @@ def c05(tier, seed):
             L.do('obs c0')
             for k in range(B.maxOrder(c) + 2):
                 L.do('q c0 bop %d' % k)
-            L.do('!snap c0 c9')
+            L.do('!snap c0 c9 c8')
             L.do('deepcopy c0 cz')
             L.do(line)
             L.do('!rejected')
-            L.do('!same c0 c9')
+            L.do('!same c0 c9 c8')
             L.do('obs c0')
             for k in range(B.maxOrder(c) + 2):
                 L.do('q c0 bop %d' % k)
